@@ -826,9 +826,6 @@ theorem clean_load (st : State) (h : Heap) (c : Clean h) : Clean (h.load st).2 :
   have c4 := clean_loadObj st.agent.held _ c3
   exact clean_of_same c4 rfl (Nat.le_succ _)
 
-/-- the empty heap -/
-def Heap.empty : Heap := ⟨0, fun _ => [], fun _ => [], fun _ => default, fun _ => default, fun _ => (0, 0), []⟩
-
 theorem clean_empty : Clean Heap.empty := fun _ _ => rfl
 
 end GV
